@@ -142,7 +142,10 @@ pub fn p_c02<T: Deserr<Rec<M_LOG>> + Model>(ok_reachable: bool, two: bool) {
             assert!(exp.n == 0, "C02: Ok although the payload contains a fault");
             assert!(v.matches(0), "C06: the value produced is not the payload's (order, arity, None-iff-null)");
         }
-        Err(_) => assert!(exp.n > 0, "C02: Err although the payload contains no fault"),
+        Err(e) => {
+            assert!(exp.n > 0, "C02: Err although the payload contains no fault");
+            assert!(e.mask == all_reports_mask(), "C02: the final error does not hold exactly one report for each independent fault");
+        }
     }
     kani::cover!(!ok_reachable || r.is_ok(), "Ok reached");
     kani::cover!(r.is_err(), "Err reached");
@@ -259,7 +262,10 @@ pub fn p_cat<T: Deserr<Rec<M_LOG>> + Cat>(ok_reachable: bool, two: bool) {
             assert!(exp.n == 0, "C02: Ok although the payload contains a fault");
             v.check_value(0);
         }
-        Err(_) => assert!(exp.n > 0, "C02: Err although the payload contains no fault"),
+        Err(e) => {
+            assert!(exp.n > 0, "C02: Err although the payload contains no fault");
+            assert!(e.mask == all_reports_mask(), "C02: the final error does not hold exactly one report for each independent fault");
+        }
     }
     T::check_calls(0, r.is_ok());
     kani::cover!(!ok_reachable || r.is_ok(), "Ok reached");
@@ -440,4 +446,31 @@ pub fn sk_enum(tab: &[&'static str], with_tag: bool, tagkey: u8, tagvals: &[u8],
 pub fn sk_enum_last(tab: &[&'static str], tagkey: u8, tagvals: &[u8], n: usize, keys: &[u8]) {
     sk_enum(tab, true, tagkey, tagvals, n, keys);
     reverse_root();
+}
+
+/// root = object whose member i has a symbolic key over its OWN concrete candidate set
+/// `sets[i]` (pairwise distinct keys), symbolic leaf values whose string ranges over the
+/// whole table.  Cheaper than `sk_obj` and able to pin scenarios such as "a faulty entry
+/// before the entry of a try_from field".
+#[cfg(kani)]
+pub fn sk_obj_sets(tab: &[&'static str], sets: &[&[u8]]) {
+    set_tab(tab);
+    any_outcomes();
+    let n = sets.len();
+    let kids: [u8; 4] = [1, 2, 3, 4];
+    let mut ks = [0u8; 4];
+    let mut kms = [0u16; 4];
+    let mut i = 0;
+    while i < n {
+        ks[i] = any_of(sets[i]);
+        kms[i] = set_mask(sets[i]);
+        let mut j = 0;
+        while j < i {
+            kani::assume(ks[j] != ks[i]);
+            j += 1;
+        }
+        set_node(1 + i, any_leaf(tab.len() as u8));
+        i += 1;
+    }
+    set_node(0, map_node_m(&kids[..n], &ks[..n], &kms[..n]));
 }
